@@ -32,12 +32,14 @@ pub trait QuatT: Copy + 'static {
     fn len2(q: &Self) -> Self::T;
     fn lenrecip(q: &Self) -> Self::T;
     fn norm(q: &Self) -> Self;
+    /// (name, quaternion form, the 4-vector operation of the same build on the same components): scalars, then normalize
+    fn like_vec4(q: &Self, p: &Self) -> (Vec<(&'static str, Self::T, Self::T)>, [Self::T; 4], [Self::T; 4]);
     /// every way of writing q*v; the first entry is the Vec3 operator form
     fn rot_forms(q: &Self, v: [Self::T; 3]) -> Forms<[Self::T; 3]>;
 }
 
 macro_rules! quat_impl {
-    ($Q:ident, $T:ident, $V:ident, |$q:ident, $v:ident, $o:ident| $extra:block) => {
+    ($Q:ident, $T:ident, $V:ident, $V4:ident, |$q:ident, $v:ident, $o:ident| $extra:block) => {
         impl QuatT for $Q {
             type T = $T;
             const TY: &'static str = stringify!($Q);
@@ -101,6 +103,14 @@ macro_rules! quat_impl {
             fn norm(q: &Self) -> Self {
                 q.normalize()
             }
+            fn like_vec4(q: &Self, p: &Self) -> (Vec<(&'static str, $T, $T)>, [$T; 4], [$T; 4]) {
+                let (a, b) = (glam::$V4::from_array(q.to_array()), glam::$V4::from_array(p.to_array()));
+                (
+                    vec![("dot", q.dot(*p), a.dot(b)), ("length_squared", q.length_squared(), a.length_squared()), ("length", q.length(), a.length()), ("length_recip", q.length_recip(), a.length_recip())],
+                    q.normalize().to_array(),
+                    a.normalize().to_array(),
+                )
+            }
             fn rot_forms($q: &Self, $v: [$T; 3]) -> Forms<[$T; 3]> {
                 let vv = $V::from_array($v);
                 let mut $o: Forms<[$T; 3]> = vec![("q*v", (*$q * vv).to_array()), ("mul_vec3", $q.mul_vec3(vv).to_array())];
@@ -110,7 +120,7 @@ macro_rules! quat_impl {
         }
     };
 }
-quat_impl!(Quat, f32, Vec3, |q, v, o| {
+quat_impl!(Quat, f32, Vec3, Vec4, |q, v, o| {
     let va = Vec3A::from_array(v);
     o.push(("q*Vec3A", (*q * va).to_array()));
     o.push(("mul_vec3a", q.mul_vec3a(va).to_array()));
@@ -121,7 +131,7 @@ quat_impl!(Quat, f32, Vec3, |q, v, o| {
         o.push((name, q.mul_vec3a(vj).to_array()));
     }
 });
-quat_impl!(DQuat, f64, DVec3, |_q, _v, _o| {});
+quat_impl!(DQuat, f64, DVec3, DVec4, |_q, _v, _o| {});
 
 fn fail<Q: QuatT>(op: &str, form: &str, msg: String) -> Fail {
     Fail::new(format!("C04/{}/{}/{}", VARIANT, Q::TY, op), format!("{op}[{form}]"), msg)
@@ -346,6 +356,15 @@ fn check_lanes<Q: QuatT>(w: &[u64], t: &mut Tally) -> Result<(), Fail> {
     lanes("mul_scalar", Q::scal(&q, s).arr(), m(&|x, _| x.fmul(s)))?;
     lanes("div_scalar", Q::divs(&q, s).arr(), m(&|x, _| x.fdiv(s)))?;
     lanes("neg", Q::negate(&q).arr(), m(&|x, _| x.fneg()))?;
+    // dot, length, length_squared, length_recip and normalize "act like the 4-vector operations": the same value
+    // as the Vec4 / DVec4 operation of this build on the same components (NaNs identified)
+    let (scalars, nq, nv) = Q::like_vec4(&q, &p);
+    for (name, got, exp) in scalars {
+        if !<Q::T as Fl>::ieq(got, exp) {
+            return Err(fail::<Q>(name, "vs 4-vector", format!("quaternion {name} = {:?} (0x{:x}) but the 4-vector {name} of the same components = {:?} (0x{:x}); {}", got, got.tb(), exp, exp.tb(), ctx())));
+        }
+    }
+    lanes("normalize (vs 4-vector normalize)", nq, nv)?;
     Ok(())
 }
 
